@@ -15,6 +15,6 @@ if [ -n "$(git -C /repo status --short)" ]; then echo "mutate.sh: /repo is not c
 restore() { git -C /repo checkout -- . ; git -C /repo clean -fdq -- src lib 2>/dev/null; }
 trap restore EXIT
 git -C /repo apply "$patch" || { echo "mutate.sh: patch does not apply"; exit 3; }
-VERIF_HOLDING_REPO_LOCK=1 ./check "$@"
+VERIF_EVIDENCE_DIR="$PWD/.cache/evidence_mutated" VERIF_HOLDING_REPO_LOCK=1 ./check "$@"
 rc=$?
 exit $rc
